@@ -277,15 +277,42 @@ class SubComponent(IdentifiableElement):
     def _build_odxlinks(self) -> Dict[OdxLinkId, Any]:
         result = {}
 
+        for scp_conn in self.sub_component_param_connectors:
+            result.update(scp_conn._build_odxlinks())
+
+        for tr_conn in self.table_row_connectors:
+            result.update(tr_conn._build_odxlinks())
+
+        for env_data_conn in self.env_data_connectors:
+            result.update(env_data_conn._build_odxlinks())
+
         for dtc_conn in self.dtc_connectors:
             result.update(dtc_conn._build_odxlinks())
 
         return result
 
     def _resolve_odxlinks(self, odxlinks: OdxLinkDatabase) -> None:
+        for scp_conn in self.sub_component_param_connectors:
+            scp_conn._resolve_odxlinks(odxlinks)
+
+        for tr_conn in self.table_row_connectors:
+            tr_conn._resolve_odxlinks(odxlinks)
+
+        for env_data_conn in self.env_data_connectors:
+            env_data_conn._resolve_odxlinks(odxlinks)
+
         for dtc_conn in self.dtc_connectors:
             dtc_conn._resolve_odxlinks(odxlinks)
 
     def _resolve_snrefs(self, context: SnRefContext) -> None:
+        for scp_conn in self.sub_component_param_connectors:
+            scp_conn._resolve_snrefs(context)
+
+        for tr_conn in self.table_row_connectors:
+            tr_conn._resolve_snrefs(context)
+
+        for env_data_conn in self.env_data_connectors:
+            env_data_conn._resolve_snrefs(context)
+
         for dtc_conn in self.dtc_connectors:
             dtc_conn._resolve_snrefs(context)
